@@ -987,9 +987,10 @@ func (dsc *dataStoreCommand) randomKey() (output respValue) {
 		l := len(dsc.ds.data.buckets)
 		n := rand.Intn(l)
 
-		for {
+		// one pass over the table from a random start; expired keys are not candidates
+		for i := 0; i < l; i++ {
 			item := dsc.ds.data.buckets[n]
-			if item != nil {
+			if item != nil && !item.value.(*storeKey).isExpiredUnlocked() {
 				output.data = respBulkString(item.key)
 				return
 			}
